@@ -8,7 +8,7 @@
    wsum (ca k) accts = sum over every account and slot of the asset shares recorded for bank key k;
    exA / exL = bank total minus that sum. Quantification: every world satisfying the invariant,
    every operation with a non-negative amount, every sequence of operations of any length. *)
-Require Import Base Constants Fixed Curve Bank BankOps FixedLemmas BankLemmas LedgerLemmas.
+Require Import Base Constants Fixed Curve Bank BankOps Risk TransferFee Handlers FixedLemmas BankLemmas LedgerLemmas SolvencyWorld HandlerWorld.
 Local Open Scope Z_scope.
 
 (* the invariant holds after every sequence of operations (failed operations roll back) *)
@@ -45,6 +45,18 @@ Theorem C02_zero_totals_no_positions :
   bl_a bl = 0 /\ bl_l bl = 0.
 Proof. exact zero_totals_no_positions. Qed.
 
+(* instruction level: the real instruction handlers (deposit, withdraw(all), borrow, repay(all), close_balance,
+   liquidate with its four legs over two banks and two accounts, handle_bankruptcy, accrue, collect_fees) as modelled in
+   Handlers.v: from a well-formed world (HOk2, which contains the ledger invariant), after any history of instructions
+   with u64 amounts (liquidator <> liquidatee) that does not wipe a bank out, every bank's totals still cover the sum of
+   all positions recorded in all accounts *)
+Theorem C02_instruction_level :
+  forall ops w, HOk2 w -> Forall hop_ok2 ops -> run_no_wipeout w ops ->
+  forall b hb, nth_bank (hrun w ops) b = Ok hb ->
+  wsum (ca (bank_pk b)) (map ha_la (hw_accts (hrun w ops))) <= b_tas (hb_b hb) /\
+  wsum (cl (bank_pk b)) (map ha_la (hw_accts (hrun w ops))) <= b_tls (hb_b hb).
+Proof. exact hrun_ledger. Qed.
+
 (* non-vacuity: worlds with fresh accounts satisfy the invariant, for any banks with sane share values *)
 Theorem C02_initial_world :
   forall banks n now pf, Forall (fun b => wf_sv b /\ 0 <= b_tas b /\ 0 <= b_tls b) banks ->
@@ -56,3 +68,4 @@ Print Assumptions C02_ledger_meaning.
 Print Assumptions C02_exact_deltas_and_dust.
 Print Assumptions C02_zero_totals_no_positions.
 Print Assumptions C02_initial_world.
+Print Assumptions C02_instruction_level.
